@@ -8,7 +8,7 @@
 From Verif Require Import Base.Prelude Model.Tree Model.Spec Model.VM Model.Writer Gen.RunnerGen
   Proofs.SpecProofs Proofs.SpecBoundsProofs Proofs.MaskProofs
   Proofs.VMU Proofs.VMUOps Proofs.VMUOps2 Proofs.VMUOps6 Proofs.VMUOps3 Proofs.CompileBase
-  Proofs.CompileDefs Proofs.CompileStage1 Proofs.CompileLoop Proofs.CompileCharLoop Proofs.CompileMulti Proofs.CompileStage4 Proofs.CompileCond.
+  Proofs.CompileDefs Proofs.CompileStage1 Proofs.CompileLoop Proofs.CompileCharLoop Proofs.CompileMulti Proofs.CompileStage4 Proofs.CompileCond Proofs.CompileRef.
 From Coq Require Import Relations ZifyBool.
 
 Section CC.
@@ -38,6 +38,7 @@ Proof.
     + apply cc_char; exact tc_nonneg.
     + cbn [supported] in Hs. apply cc_charloop; try assumption; lia.
     + apply cc_multi; exact tc_nonneg.
+    + apply cc_ref; try exact tc_nonneg. destruct Hg as [Hg0 _]. exact Hg0.
     + apply cc_anchor; exact tc_nonneg.
     + apply cc_nothing; exact tc_nonneg.
     + apply cc_empty.
